@@ -399,100 +399,7 @@ func (c *Ctx) c17Fallback() {
 		r.Undecided("R3", "role:FindAVPWithVendor", "-", "dict.(*Parser).FindAVPWithVendor not found")
 		return
 	}
-	appid, code, vendor := f.Params[1], f.Params[2], f.Params[3]
-	phis := c.dictLookupKeys("R3")
-	for ph := range phis {
-		key := fname(f) + ":appid-sources"
-		srcs := map[string]bool{}
-		good := true
-		selOK := true
-		for ei, e := range ph.Edges {
-			pe := flow.Peel(e)
-			// the parent / base alternatives must be selected by the parent lookup's ok alone
-			if pe != ssa.Value(appid) {
-				pred := ph.Block().Preds[ei]
-				gs := flow.Guards(pred.Instrs[len(pred.Instrs)-1])
-				if len(gs) == 0 {
-					selOK = false
-				} else {
-					g := gs[len(gs)-1]
-					// innermost = the guard whose If block is dominated by all others
-					for _, x := range gs {
-						if g.If.Block().Dominates(x.If.Block()) && x.If != g.If {
-							g = x
-						}
-					}
-					cond, neg := flow.Cond(g.If.Cond, g.Taken)
-					ex, isEx := cond.(*ssa.Extract)
-					isParentOK := false
-					if isEx && ex.Index == 1 {
-						if lk, ok := ex.Tuple.(*ssa.Lookup); ok && loadedGlobal(lk.X) != nil {
-							isParentOK = true
-						}
-					}
-					wantNeg := isZeroConst(pe)
-					if !isParentOK || neg != wantNeg {
-						selOK = false
-					}
-				}
-			}
-			switch {
-			case pe == ssa.Value(appid):
-				srcs["caller"] = true
-			case isZeroConst(pe):
-				srcs["base"] = true
-			default:
-				if ex, ok := pe.(*ssa.Extract); ok && ex.Index == 0 {
-					if lk, ok := ex.Tuple.(*ssa.Lookup); ok {
-						if gl := loadedGlobal(lk.X); gl != nil && flow.Peel(lk.Index) == ssa.Value(ph) {
-							srcs["parent:"+gl.Name()] = true
-							continue
-						}
-					}
-				}
-				good = false
-			}
-		}
-		hasParent := false
-		for k := range srcs {
-			if strings.HasPrefix(k, "parent:") {
-				hasParent = true
-			}
-		}
-		if good && !selOK {
-			r.Fail("R3", key+"-selection", c.pos(ph), "the choice between the parent application and the base application is not made by the parent-map lookup alone: some application's parent is skipped")
-		}
-		r.Check(good && srcs["caller"] && srcs["base"] && hasParent, "R3", key, c.pos(ph), "application id sources are exactly {caller's id, parent map of the previous id, 0}",
-			fmt.Sprintf("the fallback chain's application id has sources %v (expected caller, parent of previous, base 0)", keys(srcs)))
-	}
-	// unknown placeholder exit
-	{
-		key := fname(f) + ":unknown-placeholder"
-		found := false
-		flow.Instrs(f, func(in ssa.Instruction) {
-			ret, ok := in.(*ssa.Return)
-			if !ok || len(ret.Results) != 2 {
-				return
-			}
-			call, ok := ret.Results[0].(*ssa.Call)
-			if !ok || !flow.IsCallTo(call, pkgDict, "", "MakeUnknownAVP") {
-				return
-			}
-			a := call.Call.Args
-			okArgs := flow.Peel(a[0]) == ssa.Value(appid) && flow.Peel(a[2]) == ssa.Value(vendor)
-			if ex, isEx := flow.Peel(a[1]).(*ssa.Extract); isEx {
-				if ta, isTA := ex.Tuple.(*ssa.TypeAssert); !isTA || ta.X != ssa.Value(code) {
-					okArgs = false
-				}
-			} else {
-				okArgs = false
-			}
-			if okArgs {
-				found = true
-			}
-		})
-		r.Check(found, "R3", key, c.fpos(f), "not-found exit for uint32 codes returns MakeUnknownAVP(original app, code, vendor)", "an undefined numeric AVP code does not yield the opaque placeholder MakeUnknownAVP(original app, code, vendor): decoding cannot proceed past unknown AVPs")
-	}
+	c.c17Chain("R3", false)
 	if mk := c.P.Func("diam/dict", "MakeUnknownAVP"); mk != nil {
 		okT := false
 		flow.Instrs(mk, func(in ssa.Instruction) {
@@ -563,62 +470,10 @@ func (c *Ctx) c17Fallback() {
 // dictLookupKeys checks every comma-ok lookup of FindAVPWithVendor on the AVP indexes: keyed by
 // (loop-carried application id, the caller's code/name, the caller's vendor id). Shared clause of
 // C17 (R3) and C01 (R6). Returns the application-id phis found.
-func (c *Ctx) dictLookupKeys(rule string) map[*ssa.Phi]bool {
-	r := c.R
-	f := c.P.Method("diam/dict", "Parser", "FindAVPWithVendor")
-	if f == nil {
-		return nil
-	}
-	_, code, vendor := f.Params[1], f.Params[2], f.Params[3]
-	// lookups on avpname / avpcode
-	nLook := 0
-	phis := map[*ssa.Phi]bool{}
-	flow.Instrs(f, func(in ssa.Instruction) {
-		lk, ok := in.(*ssa.Lookup)
-		if !ok || !lk.CommaOk {
-			return
-		}
-		_, fld, _, ok := flow.FieldOf(lk.X)
-		if !ok || (fld != "avpname" && fld != "avpcode") {
-			return
-		}
-		nLook++
-		key := fmt.Sprintf("%s:lookup-%s#%d", fname(f), fld, nLook)
-		// key struct: load of alloc with field stores
-		fields := structLitFields(lk.Index)
-		if fields == nil {
-			r.Undecided(rule, key, c.pos(lk), "cannot read the lookup key's fields")
-			return
-		}
-		ph, isPhi := fields["appID"].(*ssa.Phi)
-		if !isPhi {
-			r.Fail(rule, key, c.pos(lk), "the index lookup's application id is not the loop-carried fallback value (app → parent → base)")
-			return
-		}
-		phis[ph] = true
-		if flow.Peel(fields["vendorID"]) != ssa.Value(vendor) {
-			r.Fail(rule, key, c.pos(lk), "the index lookup does not use the caller's vendor id")
-			return
-		}
-		var cf ssa.Value
-		if fld == "avpname" {
-			cf = fields["name"]
-		} else {
-			cf = fields["code"]
-		}
-		okCode := false
-		if ex, isEx := flow.Peel(cf).(*ssa.Extract); isEx {
-			if ta, isTA := ex.Tuple.(*ssa.TypeAssert); isTA && ta.X == ssa.Value(code) {
-				okCode = true
-			}
-		}
-		r.Check(okCode, rule, key, c.pos(lk), "keyed by (fallback app id, caller's code/name, caller's vendor id)", "the index lookup is not keyed by the caller's code/name")
-	})
-	if nLook == 0 {
-		r.Undecided(rule, fname(f)+":lookups", c.fpos(f), "no comma-ok lookups on the AVP indexes")
-	}
-	return phis
-}
+// dictLookupKeys: the part of the resolution that C01 relies on — an AVP the dictionary does not define (for
+// the caller's code and vendor, at no level of the chain) resolves to the opaque placeholder for numeric codes
+// and to an error otherwise, in every chain situation (no vendor-blind or code-only fallback).
+func (c *Ctx) dictLookupKeys(rule string) { c.c17Chain(rule, true) }
 
 func isZeroConst(v ssa.Value) bool {
 	k, ok := flow.ConstInt(v)
